@@ -61,6 +61,9 @@ func runOtherWorld(t *testing.T, k *Kernel, p *Plan, rec *RunRecord, keepLog boo
 	case "cred":
 		runCredWorld(t, k, p, rec)
 		return true
+	case "tls":
+		runTLSWorld(k, p, rec)
+		return true
 	}
 	return false
 }
